@@ -20,6 +20,7 @@ import (
 	"sort"
 	"strings"
 	"testing"
+	"time"
 
 	cniTypes "github.com/containernetworking/cni/pkg/types"
 	"github.com/containernetworking/plugins/pkg/ns"
@@ -361,6 +362,7 @@ type c13kEnv struct {
 	noGuard    bool
 	eniGone    bool
 	staleTable int    // table of "another interface" that stale rules point into
+	raDone     bool   // a router advertisement was already sent in this case
 	slaveName  string // ipvlan: name of the host-side slave ipvl_<eni index> (a veth stands in)
 }
 
@@ -985,6 +987,147 @@ func (e *c13kEnv) doSetup(p int, when string) {
 	}
 	e.live[p] = lv
 	e.everUp[p] = true
+	if s.V6 && (s.DP == c13DPExclusive || s.DP == c13DPIPVlan) {
+		e.raProbe(p, when)
+	}
+}
+
+// ---- router advertisements ---------------------------------------------------------------
+//
+// "Exactly one default route per enabled family" has to survive the segment the pod sits on: a
+// VPC segment carries router advertisements, and an interface that accepts them grows a second
+// `default via fe80::… proto ra`.  The pod-side interfaces that face the ENI segment (exclusive
+// ENI, ipvlan) must therefore have accept_ra=0 after Setup; where the kernel lets the harness
+// send a real advertisement from the far end, the single default route is checked afterwards
+// (by verifyLive, which runs after every operation).
+
+// c13kRACount: router advertisements received so far in the namespace of the calling thread.
+func c13kRACount() (int, error) {
+	b, err := os.ReadFile("/proc/thread-self/net/snmp6")
+	if err != nil {
+		return 0, err
+	}
+	for _, line := range strings.Split(string(b), "\n") {
+		f := strings.Fields(line)
+		if len(f) == 2 && f[0] == "Icmp6InRouterAdvertisements" {
+			n := 0
+			_, err := fmt.Sscanf(f[1], "%d", &n)
+			return n, err
+		}
+	}
+	return 0, fmt.Errorf("no Icmp6InRouterAdvertisements counter")
+}
+
+// c13kSendRA emits one unsolicited router advertisement (router lifetime 1800 s) on link `name`
+// of the calling thread's namespace, from a link-local address added for that purpose.
+func c13kSendRA(name string) error {
+	l, err := netlink.LinkByName(name)
+	if err != nil {
+		return err
+	}
+	src := net.ParseIP("fe80::13:ee")
+	err = netlink.AddrAdd(l, &netlink.Addr{IPNet: &net.IPNet{IP: src, Mask: net.CIDRMask(64, 128)}, Flags: unix.IFA_F_NODAD})
+	if err != nil && !os.IsExist(err) {
+		return err
+	}
+	fd, err := unix.Socket(unix.AF_INET6, unix.SOCK_RAW|unix.SOCK_CLOEXEC, unix.IPPROTO_ICMPV6)
+	if err != nil {
+		return err
+	}
+	defer unix.Close(fd)
+	idx := l.Attrs().Index
+	if err := unix.SetsockoptInt(fd, unix.IPPROTO_IPV6, unix.IPV6_MULTICAST_HOPS, 255); err != nil {
+		return err
+	}
+	if err := unix.SetsockoptInt(fd, unix.IPPROTO_IPV6, unix.IPV6_MULTICAST_IF, idx); err != nil {
+		return err
+	}
+	var sa unix.SockaddrInet6
+	copy(sa.Addr[:], src.To16())
+	sa.ZoneId = uint32(idx)
+	if err := unix.Bind(fd, &sa); err != nil {
+		return err
+	}
+	msg := []byte{
+		134, 0, 0, 0, // type router advertisement, code 0, checksum (filled in by the kernel)
+		64, 0, // cur hop limit, flags
+		0x07, 0x08, // router lifetime 1800 s
+		0, 0, 0, 0, 0, 0, 0, 0, // reachable time, retrans timer
+		1, 1, // option: source link-layer address
+	}
+	mac := l.Attrs().HardwareAddr
+	if len(mac) != 6 {
+		return fmt.Errorf("link %s has no ethernet address", name)
+	}
+	msg = append(msg, mac...)
+	var dst unix.SockaddrInet6
+	copy(dst.Addr[:], net.ParseIP("ff02::1").To16())
+	dst.ZoneId = uint32(idx)
+	return unix.Sendto(fd, msg, 0, &dst)
+}
+
+func (e *c13kEnv) raProbe(p int, when string) {
+	lv := e.live[p]
+	for i := 0; i < e.ifaces(p); i++ {
+		ifName := c13kIfName(i)
+		val, before := "", 0
+		err := lv.ns.Do(func(ns.NetNS) error {
+			b, err := os.ReadFile("/proc/sys/net/ipv6/conf/" + ifName + "/accept_ra")
+			if err != nil {
+				return err
+			}
+			val = strings.TrimSpace(string(b))
+			before, err = c13kRACount()
+			return err
+		})
+		if err != nil {
+			e.fatal("%s: pod%d/%s: reading accept_ra: %v", when, p, ifName, err)
+		}
+		if val != "0" {
+			e.fatal("%s: pod%d/%s faces the ENI segment with accept_ra=%s: a router advertisement adds a second IPv6 default route (want 0)", when, p, ifName, val)
+		}
+		// a real advertisement from the far end of the interface (once per case: the interface
+		// may take up to a second to start listening, see below)
+		if e.raDone {
+			continue
+		}
+		e.raDone = true
+		send := func() error {
+			if e.s.DP == c13DPExclusive {
+				return c13kSendRA(c13kIfEni(p, i) + "p")
+			}
+			return lv.ns.Do(func(ns.NetNS) error { return c13kSendRA("ipv0p") })
+		}
+		err = send()
+		if err != nil {
+			e.c.Trace("%s: pod%d/%s: cannot send a router advertisement: %v", when, p, ifName, err)
+			e.c.Label("ra:cannot-send")
+			continue
+		}
+		delivered := false
+		for try := 0; try < 300 && !delivered; try++ {
+			if try > 0 && try%20 == 0 {
+				// the interface only listens once the kernel's link watch has seen its carrier
+				// (rate limited to one event per second): keep advertising, as a router does
+				_ = send()
+			}
+			_ = lv.ns.Do(func(ns.NetNS) error {
+				if n, err := c13kRACount(); err == nil && n > before {
+					delivered = true
+				}
+				return nil
+			})
+			if !delivered {
+				time.Sleep(5 * time.Millisecond)
+			}
+		}
+		if !delivered {
+			e.c.Labelf("ra:not-delivered:%s/%s", c13DPNames[e.s.DP], ifName)
+			continue
+		}
+		time.Sleep(20 * time.Millisecond) // let the receive path finish before the routes are read
+		e.c.Labelf("ra:delivered:%s/%s", c13DPNames[e.s.DP], ifName)
+	}
 }
 
 // legacyPair installs the rule pair of an older release for address a whose veth is gone.
